@@ -431,7 +431,7 @@ func (p *PIDZero) reap() error {
 				return nil // exit reap loop
 			case syscall.SIGHUP: // Reload runnables on SIGHUP
 				p.logger.Debug("Received signal", "signal", sig)
-				go p.ReloadAll()
+				go p.reloadOnSignal()
 				continue // keep on reaping!
 			default:
 				p.logger.Debug("Unhandled signal received", "signal", sig)
